@@ -323,7 +323,62 @@ def report(chk, items):
                 break                                   # a new violation: one entry per signature is enough
 
 
+_CPU_MAX = [0.0]          # largest CPU time one history took in this process (evidence: distance to the budget)
+_TASK_MAX = [0.0]         # largest CPU time the histories of one task took in this process
+_SLOWEST = [0.0, None]    # of the current task: CPU time and replay object of its slowest history
+
+
+def _account(b, rep_obj):
+    """after a history ran under budget b"""
+    _CPU_MAX[0] = max(_CPU_MAX[0], b.cpu)
+    _TASK_MAX[0] = max(_TASK_MAX[0], W.Budget.task_spent)
+    if b.cpu >= _SLOWEST[0]:
+        _SLOWEST[0], _SLOWEST[1] = b.cpu, rep_obj
+
+
+def _skip(sink, fx):
+    """True if the next history of this task must not be executed any more (reported once per task)"""
+    if W.gave_up():
+        return True
+    if W.task_over():
+        if not W.Budget.task_reported:
+            W.Budget.task_reported = True
+            rep_obj = _SLOWEST[1] or {'kind': 'obs', 'fixture': fx.name, 'forest': []}
+            sink.violation({'clause': 'no_termination', 'op': 'task'},
+                           '%s: the histories of one task have used more than %g s of CPU time on the real code (every one below the '
+                           'budget of %g s per history, the slowest so far %.1f s; ordinary histories need < 0.5 s): the real code '
+                           'gets slower from history to history and the rest of the task is not executed'
+                           % (fx.name, W.TASK_CPU, W.HIST_CPU, _SLOWEST[0]), dict(rep_obj, clause='no_termination'))
+            W.give_up()
+        return True
+    return False
+
+
 def replay_history(sink, fx, hist, observer=None, src='bfs', reread=False, verbose=False):
+    """_replay_history under the per-history CPU / memory budget of c10_world.Budget: a history on which the real code does not
+    come back is a violation (clause no_termination), not a hang of the check.  Returns the number of calls executed,
+    -1 if the history was not executed because this worker process has given up (c10_world.gave_up)."""
+    if _skip(sink, fx):
+        return -1
+    pos = {'k': 0}
+    b = W.Budget()
+    try:
+        with b:
+            return _replay_history(sink, fx, hist, observer, src, reread, verbose, pos)
+    except (W.NoTermination, MemoryError) as e:
+        k = pos['k']
+        st = hist[k] if 1 <= k < len(hist) else None
+        what = ('%s on node %d' % (call_text(st), st['h'])) if st else 'building the initial tree'
+        sink.violation({'clause': 'no_termination', 'op': st['op'] if st else 'setup'},
+                       '%s: history %s: the real code does not come back at step %d (%s, or the projection / iterate_segments() of '
+                       'the tree after it): %s' % (fx.name, [call_text(x) for x in hist[1:]], k, what, W.why(e)),
+                       {'kind': 'hist', 'fixture': fx.name, 'hist': hist, 'step': k, 'src': src, 'clause': 'no_termination'})
+        return k
+    finally:
+        _account(b, {'kind': 'hist', 'fixture': fx.name, 'hist': hist, 'step': max(pos['k'], 1), 'src': src})
+
+
+def _replay_history(sink, fx, hist, observer, src, reread, verbose, pos):
     """execute one TLC history on a real tree, comparing after every call; returns the number of calls executed"""
     world = fx.fresh_world(reread=reread)
     cur = fx.init
@@ -333,6 +388,7 @@ def replay_history(sink, fx, hist, observer=None, src='bfs', reread=False, verbo
     nsteps = 0
     for k, st in enumerate(hist[1:], 1):
         nsteps += 1
+        pos['k'] = k
         tomb = has_tombstone(world.objs[st['h']]) if st['op'] == 'copy' else False
         ret = world.call(st, k + len(hist) + st['h'])
         obs = world.project()
@@ -393,10 +449,14 @@ def _tlc_part(arg):
     hists = res.payloads.get('HIST', [])
     sink = Sink()
     obs = Observer(alpha, obs_cap) if obs_cap else None
-    steps = 0
+    steps = skipped = 0
     keys = set()
     for i, h in enumerate(hists):
-        steps += replay_history(sink, fx, h, obs, mode, reread=(i == 0))
+        n = replay_history(sink, fx, h, obs, mode, reread=(i == 0))
+        if n < 0:
+            skipped += 1
+            continue
+        steps += n
         keys.add(hashlib.sha1(json.dumps([[st['h'], st['op'], st['path'], st['sd'], st['v'], st['a']] for st in h[1:]]).encode()).hexdigest())
     sample = None
     if hists:
@@ -405,8 +465,8 @@ def _tlc_part(arg):
                   'accepted_returns': [('any' if st['free'] else [short_ret(r) for r in st['rets']]) for st in h[1:]],
                   'expected_serialisation_at_end': ([st['ser'] for st in h[1:] if st['chg']] or ['unchanged'])[-1]}
     stats = {'distinct': res.distinct, 'generated': res.generated, 'depth': res.depth, 'wall': res.wall}
-    return {'viol': sink.items, 'steps': steps, 'obs': obs.items if obs else [], 'nh': len(hists), 'keys': keys, 'stats': stats,
-            'sample': sample, 'label': label}
+    return {'viol': sink.items, 'steps': steps, 'obs': obs.items if obs else [], 'nh': len(hists) - skipped, 'keys': keys, 'stats': stats,
+            'sample': sample, 'label': label, 'skipped': skipped, 'cpu_max': _CPU_MAX[0], 'task_max': _TASK_MAX[0]}
 
 
 def explore_tasks(d, name, alpha, mode, maxhist, extra_nodes, allow_copy, nparts, num=0, obs_cap=0):
@@ -424,10 +484,23 @@ def _cpu():
 
 def _task(t):
     c0 = _cpu()
+    W.start_task()
+    _SLOWEST[0], _SLOWEST[1] = 0.0, None
     r = _tlc_part(t[1]) if t[0] == 'tlc' else _record_part(t[1])
     if os.environ.get('C10_PROFILE'):
         print('PROFILE %s %s cpu=%.1f' % (t[0], [x for x in t[1] if isinstance(x, (str, int, bool))][:8], _cpu() - c0), file=sys.stderr)
     return r
+
+
+def _note_budget(chk, r):
+    """evidence: the largest CPU time of one history (budget: c10_world.HIST_CPU) and the histories a worker process did not
+    execute after it had seen c10_world.POISON_AFTER histories without end"""
+    b = chk.extra.setdefault('termination_guard', {'cpu_budget_per_history_s': W.HIST_CPU, 'max_cpu_of_one_history_s': 0.0,
+                                                   'cpu_budget_per_task_s': W.TASK_CPU, 'max_cpu_of_the_histories_of_one_task_s': 0.0,
+                                                   'histories_not_executed_after_no_termination': 0})
+    b['max_cpu_of_one_history_s'] = round(max(b['max_cpu_of_one_history_s'], r.get('cpu_max', 0.0)), 2)
+    b['max_cpu_of_the_histories_of_one_task_s'] = round(max(b['max_cpu_of_the_histories_of_one_task_s'], r.get('task_max', 0.0)), 1)
+    b['histories_not_executed_after_no_termination'] += r.get('skipped', 0)
 
 
 def merge_explore(chk, tasks, results):
@@ -443,6 +516,8 @@ def merge_explore(chk, tasks, results):
         g['tot'].depth = max(g['tot'].depth, r['stats']['depth'])
         g['tot'].wall = max(g['tot'].wall, r['stats']['wall'])
         g['nh'] += r['nh']
+        g['skipped'] = g.get('skipped', 0) + r['skipped']
+        _note_budget(chk, r)
         chk.add_eval(r['steps'])
         report(chk, r['viol'])
         for k in r['keys']:
@@ -454,7 +529,7 @@ def merge_explore(chk, tasks, results):
     for (name, mode, maxhist, allow_copy, nparts), g in sorted(groups.items()):
         chk.add_tlc(g['tot'], 'TreeEdit %s %s MaxHist=%d copy=%s (%d runs)' % (mode, name, maxhist, allow_copy, nparts))
         chk.add_traces(g['nh'])
-        if g['nh'] == 0:
+        if g['nh'] == 0 and not g.get('skipped'):
             raise vlib.MachineryError('TreeEdit %s %s emitted no history' % (mode, name))
         if g['sample'] and mode == 'sim' and allow_copy is False:
             chk.sample(g['sample'], cap=3)
@@ -636,14 +711,17 @@ def random_call(fx, proj, rnd, allow_copy):
     return st
 
 
-def record_trace(fx, rnd, nsteps, allow_copy, reread=False, script=None):
+def record_trace(fx, rnd, nsteps, allow_copy, reread=False, script=None, holder=None):
+    holder = holder if holder is not None else {}
     world = fx.fresh_world(reread=reread)
     proj = world.project()
     ser = world.serialise(proj)
     tr = {'fixture': fx.name, 'init': proj, 'ser0': ser, 'events': []}
+    holder['tr'] = tr
 
     def do(st):
         nonlocal proj, ser
+        holder['pending'] = st
         tomb = has_tombstone(world.objs[st['h']]) if st['op'] == 'copy' else False
         ret = world.call(st, rnd.randint(0, 3))
         p2 = world.project()
@@ -735,17 +813,48 @@ def scripted(name):
     return {'b837': [readme, suite837], 'c837': [readme], 'b835': [suite835]}.get(name, [])
 
 
+def guarded_trace(sink, fx, *a, **kw):
+    """record_trace under the per-history budget; None if the real code did not come back (reported through sink) or if
+    this worker process has given up"""
+    if _skip(sink, fx):
+        return None
+    holder = {}
+    b = W.Budget()
+    try:
+        with b:
+            return record_trace(fx, *a, holder=holder, **kw)
+    except (W.NoTermination, MemoryError) as e:
+        tr = holder.get('tr') or {'fixture': fx.name, 'init': [], 'ser0': [], 'events': []}
+        st = holder.get('pending')
+        k = len(tr['events']) + 1
+        what = ('%s on node %d' % (call_text(st), st['h'])) if st else 'building the initial tree'
+        if st:
+            tr = dict(tr, events=tr['events'] + [dict(st, ret={'x': 'no_termination', 'b': False, 'n': 0, 'm': 0, 's': [], 'xs': []},
+                                                       chg=False, f=[], ser=[], tomb=False)])
+        sink.violation({'clause': 'no_termination', 'op': st['op'] if st else 'setup'},
+                       '%s: recorded history: the real code does not come back at step %d (%s, or the projection / '
+                       'iterate_segments() of the tree after it): %s' % (fx.name, k, what, W.why(e)),
+                       {'kind': 'trace', 'fixture': fx.name, 'trace': tr, 'step': k, 'clause': 'no_termination'})
+        return None
+    finally:
+        tr = holder.get('tr')
+        _account(b, {'kind': 'trace', 'fixture': fx.name, 'trace': tr, 'step': len(tr['events'])} if tr else None)
+
+
 def _record_part(arg):
     name, ntraces, nsteps, part = arg
     fx = fixture(name)
     rnd = random.Random(vlib.seed() * 7919 + part * 104729 + sum(ord(c) for c in name))
     out = []
+    sink = Sink()
     if part == 0:
         for sc in scripted(name):
-            out.append(record_trace(fx, rnd, 0, True, reread=True, script=sc))
+            out.append(guarded_trace(sink, fx, rnd, 0, True, reread=True, script=sc))
     for t in range(ntraces):
-        out.append(record_trace(fx, rnd, nsteps, allow_copy=(t % 2 == 0), reread=(t == 0)))
-    return out
+        out.append(guarded_trace(sink, fx, rnd, nsteps, allow_copy=(t % 2 == 0), reread=(t == 0)))
+    return {'traces': [t for t in out if t is not None], 'viol': sink.items,
+            'skipped': max(0, sum(1 for t in out if t is None) - len([v for v in sink.items if v[0].get('op') != 'task'])),
+            'cpu_max': _CPU_MAX[0], 'task_max': _TASK_MAX[0]}
 
 
 def _validate_part(arg):
@@ -911,9 +1020,18 @@ def do_replay(path):
         evs = tr['events'][:obj['step']]
         world = fx.fresh_world(reread=True)
         print('recorded history on fixture %s (%d calls), TLC rejected step %d at clause %s' % (fx.name, len(evs), obj['step'], obj.get('clause')))
-        for k, ev in enumerate(evs, 1):
-            ret = world.call(ev, 1)
-            print('  step %d node %d %s -> now %s ; recorded %s' % (k, ev['h'], call_text(ev), short_ret(ret), short_ret(ev['ret'])))
+        try:
+            with W.Budget():
+                for k, ev in enumerate(evs, 1):
+                    ret = world.call(ev, 1)
+                    world.serialise(world.project())
+                    print('  step %d node %d %s -> now %s ; recorded %s' % (k, ev['h'], call_text(ev), short_ret(ret), short_ret(ev['ret'])))
+        except (W.NoTermination, MemoryError) as e:
+            print('VIOLATION no_termination: the real code does not come back at step %d: %s' % (k, W.why(e)))
+            return 1
+        if obj.get('clause') == 'no_termination':
+            print('all calls came back within the budget')
+            return 0
         d = vlib.scratch('c10rp')
         try:
             sub = Check(PID, 'quick')
@@ -956,11 +1074,20 @@ def run(tier, replay=None):
                 'trivial = none: every history executes at least one API call on a real tree')
     d = vlib.scratch('c10')
     quick = tier == 'quick'
+    if not os.environ.get('C10_TASK_CPU'):
+        W.TASK_CPU = 240.0 if quick else 1200.0     # (inherited by the forked workers) ordinary tasks: see termination_guard in the evidence
     try:
         tasks = []
         # spec -> code: exhaustive histories of mutating calls on small real trees (+ read-only observations on every forest reached)
         depths = {}
-        skipped = [n for n in SMALL + BIG if not explorable(n)]
+        try:
+            with W.Budget():
+                skipped = [n for n in SMALL + BIG if not explorable(n)]
+        except (W.NoTermination, MemoryError) as e:
+            chk.violation({'clause': 'no_termination', 'op': 'reader'},
+                          'reading the fixture trees with X12ContextReader.iter_segments does not come back: ' + W.why(e),
+                          {'kind': 'obs', 'fixture': 'all', 'forest': [], 'clause': 'no_termination'})
+            return chk.finish()
         chk.extra['fixtures_not_explored_by_the_model'] = skipped
         for name, parts in (('s837', 8), ('s835', 4), ('s834', 4)):
             if name in skipped:
@@ -990,7 +1117,9 @@ def run(tier, replay=None):
         traces = {}
         for t, r in zip(tasks, results):
             if t[0] == 'rec':
-                traces.setdefault(t[1][0], []).extend(r)
+                traces.setdefault(t[1][0], []).extend(r['traces'])
+                report(chk, r['viol'])
+                _note_budget(chk, r)
         parts = []
         for name in sorted(traces):
             for t in traces[name]:
@@ -1001,14 +1130,14 @@ def run(tier, replay=None):
             parts += validation_parts(d, name, [], obs[name], 'observations', 3 if quick else 12)
         out = vlib.parallel_map(_validate_part, [(x['name'], x['frag'], x['path']) for x in parts], procs=vlib.NCPU)
         bad, nev = merge_validation(chk, parts, out)
-        t = traces['b837'][-1]
+        t = (traces['b837'] or [{'events': []}])[-1]
         chk.sample({'recorded_history': 'b837', 'calls': ['node %d: %s -> %s' % (e['h'], call_text(e), short_ret(e['ret']))
                                                           for e in t['events'][:8]]})
         chk.extra['recorded_events_and_observations'] = nev
         chk.extra['recorded_calls_outside_alphabet'] = bad
         if bad > max(20, nev // 200):
             raise vlib.MachineryError('the recorder produced %d calls outside the alphabet of the specification' % bad)
-        if not quick:
+        if not quick and len([t for t in traces['b837'] if len(t['events']) >= 3]) >= 6:
             selftest(chk, d, 'b837', traces['b837'])
         chk.exhaustive = False
         chk.assumptions = [
